@@ -539,4 +539,41 @@ def posFrag (pmin : Nat) : Expr → Option Nat
     | none => none
   | _ => none
 
+/-! ### No operation in a lower precision than the type -/
+
+/-- The lowest precision (significand bits) at which any operation, conversion or input of the
+expression is carried out. Literals do not count: a constant may be written in any precision (whether
+it is accurate enough is C01's question). -/
+def Expr.minP : Expr → Nat
+  | .var _ f => f.fmt.p
+  | .lit _ _ _ _ => 1000
+  | .pi f _ _ => f.fmt.p
+  | .un _ f a => min f.fmt.p (Expr.minP a)
+  | .bin _ f a b => min f.fmt.p (min (Expr.minP a) (Expr.minP b))
+  | .powi f _ a => min f.fmt.p (Expr.minP a)
+  | .cast f a => min f.fmt.p (Expr.minP a)
+  | .uninit _ => 1000
+
+/-- Every expression of a decision tree: outputs and both sides of every comparison. -/
+def DTree.exprs : DTree → List Expr
+  | .leaf outs => outs.flatMap fun o => match o with
+      | .num e => [e]
+      | .str parts => parts.filterMap fun p => match p with | .num e => some e | _ => none
+      | _ => []
+  | .node _ a b y n => a :: b :: (DTree.exprs y ++ DTree.exprs n)
+  | .unexplored => []
+
+/-- The precision an entry is entitled to: that of its numeric type, or the lower of the two for an
+entry that mixes two numeric types (converting members, model functions taking another type). -/
+def Entry.needP (e : Entry) : Nat :=
+  match e.ufm with
+  | some u => min e.fm.fmt.p u.fmt.p
+  | none => e.fm.fmt.p
+
+/-- No operation of the entry is carried out in a lower precision than its numeric type(s): a stray
+`float` temporary, a `static_cast<float>`, a `cbrtf` in `double` code would all show here, though the
+formula over the reals is unchanged. -/
+def checkNoNarrowing (e : Entry) : Bool :=
+  e.tree.exprs.all fun ex => decide (e.needP ≤ ex.minP)
+
 end PhQVerif
